@@ -22,4 +22,10 @@ DRIVERS = {
         "level_text": "For every (ruleset delay, plugin delay, hook variant) configuration all reachable (remaining pause, suspended action, remaining hook window) states are visited with clock advances 1/2/3 s, so ticks land before, exactly at and after t+d; STOP is reached synchronously, after prekill-hook waits and after kill_by_pg_scan's sampling tick, with the detector firing or silent on the resume tick. Model equality of the call log plus the engine's private pause timestamp decide the property.",
         "level_note": "Trusted: observer plugin verif_wrap (forwards to the real plugin and records its return), scripted hook, virtual clock. Wet kills (which sleep inside the action) are covered by C01/C17, not here.",
     },
+    "C13": {
+        "sources": COMMON + ["props/c13.cpp"], "level": "model_checking", "engine": "E1",
+        "technique": "explicit-state BFS over drop-in operation histories on the real engine through the real DropInServiceAdaptor, reference-model comparison after every operation plus differential reversibility on the implementation",
+        "level_text": "All reachable drop-in states (per base ruleset the ordered list of tagged copies, hook priority list, counter) are visited for every base permission combination in the family; after every operation evaluation order, enablement, copy freshness, oomd.dropin.added, hook priority and private bookkeeping must equal the model, and removing a tag must give the same observation as never having added it (checked by running both histories on the real code).",
+        "level_note": "Trusted: scripted plugins/hooks, reference model transcribed from docs/drop_in_configs.md and docs/prekill_hooks.md. The inotify/file layer that feeds the adaptor is C14's subject.",
+    },
 }
